@@ -131,6 +131,11 @@ func (f *Frame) callStatic(st *State, site ssa.CallInstruction, common *ssa.Call
 	if f.depth >= c.depthCap {
 		return f.unknownCall(st, common, key+" (inline depth)")
 	}
+	if instrCount(callee) > 25 && !c.feasible(st.reach) {
+		st.reach = TFalse
+		st.br = nil
+		return f.zeroResults(common)
+	}
 	nf := &Frame{c: c, fn: callee, env: map[ssa.Value]*Val{}, caller: f, depth: f.depth + 1}
 	for i, p := range callee.Params {
 		nf.env[p] = args[i]
@@ -372,24 +377,38 @@ func (f *Frame) copyRange(st *State, dBase, dOff, sBase, sOff, n Term, et types.
 		}
 		return
 	}
-	// symbolic length: per leaf memory of the element type
-	for _, lm := range c.elemMems(et) {
-		old := c.memGet(st, lm.name, lm.sort)
-		nw := c.Fresh("cp."+lm.name, old.Sort)
-		c.usesQuant = true
-		// r = pathSuffix(elem(dBase, dOff+i)) for some 0<=i<n  <=>  r in destination window
-		// For scalar elements the cell address is elem(dBase, j) itself.
-		idx := "(pelemi (rpath r))"
-		inWin := fmt.Sprintf("(and ((_ is pelem) (rpath r)) (= (mkref (rroot r) (pelemp (rpath r))) %s) %s %s)",
-			dBase.S, c.idxLe(dOff, raw(idx, c.idxSort)).S, c.idxLt(raw(idx, c.idxSort), c.idxAdd(dOff, n)).S)
-		srcAddr := RefElem(sBase, c.idxAdd(sOff, c.idxSub(raw(idx, c.idxSort), dOff)))
-		c.assumes = append(c.assumes, Assume{declPos: len(c.decls), why: "copy of a symbolic range",
-			t: raw(fmt.Sprintf("(forall ((r Ref)) (! (= (select %s r) (ite %s (select %s %s) (select %s r))) :pattern ((select %s r))))",
-				nw.S, inWin, old.S, srcAddr.S, old.S, nw.S), SBool)})
-		st.mem[lm.name] = nw
-		if !lm.scalarElem {
-			c.note("symbolic-length copy of non-scalar elements is abstracted per leaf (element type %s)", et)
+	// symbolic but provably short: guarded element-wise copy (quantifier-free)
+	if !isAggregate(et) {
+		for _, bnd := range []int64{8, 16, 64} {
+			if !c.feasible(And(st.reach, c.idxLt(c.idxLit(bnd), n))) {
+				vals := make([]*Val, bnd)
+				for i := int64(0); i < bnd; i++ {
+					vals[i] = c.load(st, RefElem(sBase, c.idxAdd(sOff, c.idxLit(i))), et)
+				}
+				for i := int64(0); i < bnd; i++ {
+					addr := RefElem(dBase, c.idxAdd(dOff, c.idxLit(i)))
+					old := c.load(st, addr, et)
+					c.store(st, addr, et, c.iteVal(c.idxLt(c.idxLit(i), n), vals[i], old))
+				}
+				return
+			}
 		}
+	}
+	// symbolic length: the destination array is replaced by an array constrained
+	// by a quantified axiom over the index alone
+	c.usesQuant = true
+	for _, lm := range c.elemMems(et) {
+		en := "E" + lm.name[1:]
+		e := c.elemGet(st, en, lm.sort)
+		inner := SArr(c.idxSort, lm.sort)
+		na := c.Fresh("cp."+en, inner)
+		i := raw("i", c.idxSort)
+		inWin := And(c.idxLe(dOff, i), c.idxLt(i, c.idxAdd(dOff, n)))
+		src := Select(Select(e, sBase), c.idxAdd(sOff, c.idxSub(i, dOff)))
+		c.assumes = append(c.assumes, Assume{declPos: len(c.decls), why: "copy of a symbolic range",
+			t: raw(fmt.Sprintf("(forall ((i %s)) (! (= (select %s i) (ite %s %s (select (select %s %s) i))) :pattern ((select %s i))))",
+				c.idxSort, na.S, inWin.S, src.S, e.S, dBase.S, na.S), SBool)})
+		c.memSet(st, en, Store(e, dBase, na))
 	}
 }
 
@@ -488,4 +507,12 @@ func bindResults(sc *Scope, fn *ssa.Function, res *Val) {
 			sc.vars[n] = res.F[i]
 		}
 	}
+}
+
+func instrCount(fn *ssa.Function) int {
+	n := 0
+	for _, b := range fn.Blocks {
+		n += len(b.Instrs)
+	}
+	return n
 }
